@@ -39,7 +39,7 @@ CONTRACTS = {
         "modes auto/fused/blockwise, missing blocks, nothing aligned, scalar results with preserve_array False/True, outer products, float64/complex128 (also mixed)",
         "quick: exhaustive for operands of rank<=2 over index structures with <=2 charges from the first 2 charges of the symmetry (fixed block sizes), all total charges, "
         "every sector subset (<=4 valid sectors) -- about 9e4 pairs -- then seeded random pairs up to rank 4 with <=3 charges per index, sizes 1..3; "
-        "thorough: same over the first 3 charges and more random pairs",
+        "thorough: the first 3 charges for pairs with rank sum <= 3, and 1.5e6 random cases",
     ),
     "C02.matmul_dense": (
         "x @ y for 1-D/2-D abelian operands with matching inner index (same/sub/super table)",
@@ -173,14 +173,18 @@ def gen_cases(tier, seed):
         n = 0
         for na in (0, 1, 2):
             for nb in (0, 1, 2):
+                # thorough: the first 3 charges for the smaller pairs, the first 2 for rank 2 x rank 2
+                np_ = npool if na + nb <= 3 else 2
+                idx_, pool_ = small_index_specs(sym, npool=np_), small_pool(sym, np_)
                 for k in range(0, min(na, nb) + 1):
-                    for a, b, axes, vname in gen_small_pairs(sym, na, nb, k, idx, pool, seed=seed):
+                    for a, b, axes, vname in gen_small_pairs(sym, na, nb, k, idx_, pool_, seed=seed):
                         n += 1
                         yield _td(a, b, axes, vname, route="ar" if n % 5 == 0 else "sr", pa=bool(n % 2))
         # matmul: (1,1) (1,2) (2,1) (2,2), inner index = last of a / first of b
         for na in (1, 2):
             for nb in (1, 2):
-                for a, b, axes, vname in gen_small_pairs(sym, na, nb, 1, idx, pool, seed=seed + 1):
+                np_ = npool if na + nb <= 3 else 2
+                for a, b, axes, vname in gen_small_pairs(sym, na, nb, 1, small_index_specs(sym, npool=np_), small_pool(sym, np_), seed=seed + 1):
                     if axes == [[na - 1], [0]]:
                         yield {"contract": "C02.matmul_dense", "a": a, "b": b, "variant": vname}
         for spec, vname in _matched_matrix_specs(sym, small_index_specs(sym, npool=max(npool, 3), vary_sizes=True), small_pool(sym, max(npool, 3)), seed):
@@ -188,11 +192,12 @@ def gen_cases(tier, seed):
         for eq, pairs, n_ in EINSUM_EQS:
             t = len(pairs)
             if n_ <= 3 or t == 2:
-                for spec in _einsum_array_specs_small(sym, eq, pairs, n_, idx, pool, seed):
+                np_ = npool if n_ - t <= 2 else 2
+                for spec in _einsum_array_specs_small(sym, eq, pairs, n_, small_index_specs(sym, npool=np_), small_pool(sym, np_), seed):
                     yield {"contract": "C02.einsum_dense", "a": spec, "eq": eq}
     # ---- seeded random ----------------------------------------------------------
     rng = np.random.default_rng([seed, 202])
-    n_rand = 30000 if quick else 600000
+    n_rand = 40000 if quick else 1500000
     for i in range(n_rand):
         sym = ALL_SYMS[i % len(ALL_SYMS)]
         r = i % 10
@@ -248,23 +253,23 @@ def check_tensordot(d):
     aligned = bool(np.any(full != 0))
     for mode in MODES:
         for pa in pas:
-            feats = _feat(d, mode=mode, preserve_array=pa, k=k, na=na, nb=nb, int_axes=isinstance(axes, int),
-                          empty_operand=(not a.blocks or not b.blocks), dtype_a=d["a"].get("dtype"), dtype_b=d["b"].get("dtype"))
+            feats = _feat(d, mode=mode, preserve_array=pa, int_axes=isinstance(axes, int), empty_operand=(not a.blocks or not b.blocks))
+            det = f" [mode={mode} ranks {na}x{nb} contracted={k} axes={axes} dtypes={d['a'].get('dtype')}/{d['b'].get('dtype')}]"
             if d.get("route") == "ar" and mode == "auto":
                 ok, res = _call(ar.do, "tensordot", a, b, lib_axes, preserve_array=pa)
             else:
                 ok, res = _call(sr.tensordot, a, b, lib_axes, mode=mode, preserve_array=pa)
             if not ok:
-                fails.append(("C02.tensordot_dense.no_exception", res, feats))
+                fails.append(("C02.tensordot_dense.no_exception", res + det, feats))
                 continue
             if scalar and not pa:
                 if isinstance(res, sr.AbelianArray):
-                    fails.append(("C02.tensordot_dense.scalar", "scalar contraction returned an array with preserve_array=False", feats))
+                    fails.append(("C02.tensordot_dense.scalar", "scalar contraction returned an array with preserve_array=False" + det, feats))
                 elif not scalar_equal(res, full):
-                    fails.append(("C02.tensordot_dense.scalar", f"scalar result {res!r} != dense {full!r}", feats))
+                    fails.append(("C02.tensordot_dense.scalar", f"scalar result {res!r} != dense {full!r}" + det, feats))
                 continue
             for suffix, msg in compare_with_dense(res, full, tabs, duals, exp_charge):
-                fails.append((f"C02.tensordot_dense.{suffix}", msg, feats))
+                fails.append((f"C02.tensordot_dense.{suffix}", msg + det, feats))
     fp = ("td", spec_struct(d["a"]), spec_struct(d["b"]), repr(axes))
     return {
         "fingerprint": fp,
@@ -289,7 +294,7 @@ def check_matmul(d):
     full2 = dense_on(a, ta) @ dense_on(b, tb)
     if not np.array_equal(full, full2):
         raise RuntimeError("harness: np.tensordot and @ disagree on the dense operands")
-    feats = _feat(d, na=na, nb=nb)
+    feats = _feat(d, ranks=f"{na}x{nb}")
     fails = []
     ok, res = _call(lambda: a @ b)
     if not ok:
@@ -350,7 +355,7 @@ def check_einsum(d):
     full = np.einsum(eq, A)
     tabs = [ta[lhs.index(q)] for q in rhs]
     duals = [a.indices[lhs.index(q)].dual for q in rhs]
-    feats = _feat(d, eq=eq, n_traced=sum(1 for ps in pos.values() if len(ps) == 2))
+    feats = _feat(d, n_traced=sum(1 for ps in pos.values() if len(ps) == 2), scalar_result=not rhs)
     fails = []
     calls = [("method", lambda: a.einsum(eq), False), ("function", lambda: sr.einsum(eq, a), False)]
     if not rhs:
@@ -359,14 +364,14 @@ def check_einsum(d):
         ok, res = _call(fn)
         f = dict(feats, route=route)
         if not ok:
-            fails.append(("C02.einsum_dense.no_exception", f"{route}: {res}", f))
+            fails.append(("C02.einsum_dense.no_exception", f"{eq} {route}: {res}", f))
             continue
         if not rhs and not pa:
             if isinstance(res, sr.AbelianArray) or not scalar_equal(res, full):
-                fails.append(("C02.einsum_dense.scalar", f"{route}: {res!r} != {full!r}", f))
+                fails.append(("C02.einsum_dense.scalar", f"{eq} {route}: {res!r} != {full!r}", f))
             continue
         for suffix, msg in compare_with_dense(res, np.asarray(full), tabs, duals, a.charge):
-            fails.append((f"C02.einsum_dense.{suffix}", f"{route}: {msg}", f))
+            fails.append((f"C02.einsum_dense.{suffix}", f"{eq} {route}: {msg}", f))
     return {
         "fingerprint": ("es", eq, spec_struct(d["a"])),
         "nontrivial": bool(np.any(full != 0)),
